@@ -77,11 +77,17 @@ Definition int_text_any (txt : bytes) : option Z :=
 (* DefaultDecodeMaxStrLen *)
 Definition max_str_len : N := 134217727.
 
-(* n bytes of r, when there are that many *)
-Definition take_str (n : N) (r : bytes) : option (bytes * bytes) :=
-  if N.leb n (N.of_nat (length r)) then
-    let k := N.to_nat n in Some (firstn k r, skipn k r)
-  else None.
+(* n bytes of r, when there are that many (walks at most n bytes: a huge declared length costs nothing) *)
+Fixpoint take_str (n : N) (r : bytes) : option (bytes * bytes) :=
+  if N.eqb n 0 then Some ([], r)
+  else match r with
+       | [] => None
+       | x :: r' =>
+           match take_str (N.pred n) r' with
+           | Some (s, t) => Some (x :: s, t)
+           | None => None
+           end
+       end.
 
 (* a string token `<len>:<bytes>` as parseStringLength + read see it; b starts at the first digit *)
 Definition parse_str_tok (b : bytes) : option (bytes * bytes) :=
